@@ -82,6 +82,12 @@ func runC06WireCase(run *ev.Run, cs c06WireCase) {
 		return
 	}
 	reqs := srv.Requests()
+	for _, r := range got {
+		if portStarved(r.Error) {
+			run.Count("wire_cases_not_judged_no_free_local_ports", 1)
+			return
+		}
+	}
 	run.Eval(1)
 	run.Count("wire_attacks", 1)
 	run.Count("wire_requests", int64(len(reqs)))
@@ -167,6 +173,7 @@ func c06Wire(c *Ctx, run *ev.Run) {
 	rng := c.Rand("wire")
 	n := c.Pick(12, 200)
 	for i := 0; i < n; i++ {
+		waitForPorts(run, 16000, 90*time.Second)
 		runC06WireCase(run, c06WireCase{MaxBody: []int64{-1, 0, 1, 100, 4999, 5000, 6000}[i%7], Chunked: i%2 == 1, Name: []string{"", "wire-attack"}[i%3%2],
 			Hits: 40, RespSize: 5000, Seed: rng.Int63()})
 	}
